@@ -1,11 +1,11 @@
 CONSTANTS
-  Kind = "m"
-  MaxE = 2
+  Kind = "a"
+  MaxE = 3
   MaxUR = 0
   MaxF = 0
   UseStop = FALSE
   Flat = FALSE
-  Pre = TRUE
+  Pre = FALSE
   Shape = "wiggle"
   MaxP = 1
   MaxW = 1
